@@ -722,6 +722,21 @@ def accessor_value(f: 'FuncInfo') -> Optional[ast.expr]:
             and isinstance(body[0].body[0].value, ast.Constant) and body[0].body[0].value.value is None
             and isinstance(body[0].test, ast.Compare) and isinstance(body[0].test.ops[0], ast.Is)):
         body = [body[1]]
+    # the same None-guard spelled as if/else, with the sense reversed, or as a conditional expression
+    two = None
+    if len(body) == 1 and isinstance(body[0], ast.Return) and isinstance(body[0].value, ast.IfExp):
+        two = (body[0].value.test, body[0].value.body, body[0].value.orelse)
+    elif (len(body) in (1, 2) and isinstance(body[0], ast.If) and len(body[0].body) == 1 and isinstance(body[0].body[0], ast.Return)
+            and body[0].body[0].value is not None):
+        rest = body[0].orelse if len(body) == 1 else ([body[1]] if not body[0].orelse else [])
+        if len(rest) == 1 and isinstance(rest[0], ast.Return) and rest[0].value is not None:
+            two = (body[0].test, body[0].body[0].value, rest[0].value)
+    if two is not None:
+        t, a, b = two
+        if isinstance(t, ast.Compare) and len(t.ops) == 1 and isinstance(t.ops[0], (ast.Is, ast.IsNot)) and norm(t.comparators[0]) == 'None':
+            none_side, other = (a, b) if isinstance(t.ops[0], ast.Is) else (b, a)
+            if isinstance(none_side, ast.Constant) and none_side.value is None and norm(other).startswith(norm(t.left) + '.'):
+                body = [ast.Return(value=other)]
     # lazily created attribute: ``if self._x is None: self._x = <new object>`` + ``return self._x`` names the location self._x
     if (len(body) == 2 and isinstance(body[0], ast.If) and isinstance(body[1], ast.Return) and body[1].value is not None
             and len(body[0].body) == 1 and not body[0].orelse and isinstance(body[0].body[0], ast.Assign) and len(body[0].body[0].targets) == 1
